@@ -103,8 +103,16 @@ def run(check):
             with Scratch() as sc:
                 sc.write("ws/proj/src/lib.rs", SRC)
                 have_file = file_present or rng.random() < 0.5
+                cfg_path = "ws/typeshare.toml"
+                if have_file and discover == "-c":
+                    # the explicitly named file lives elsewhere; a different typeshare.toml is discoverable from the working
+                    # directory: -c must win over discovery
+                    cfg_path = "cfg/explicit.toml"
+                    decoy = {(sec, key): ("Decoy%d" % rng.randint(0, 99) if "package" not in name else "net.decoy%d.pk" % rng.randint(0, 99))}
+                    sc.write("ws/typeshare.toml", toml_text(decoy, {"typescript": {"type_mappings": {"Url": "DecoyUrl"}}}))
+                    check.count("explicit -c next to a discoverable typeshare.toml")
                 if have_file:
-                    sc.write("ws/typeshare.toml", toml_text(shared, tables))
+                    sc.write(cfg_path, toml_text(shared, tables))
                 langs = [lang] if lang else ["typescript"]
                 for L in langs:
                     args = ["--lang", L, "-o", sc.path("out." + EXT[L])]
@@ -117,7 +125,7 @@ def run(check):
                         extra = ["--scala-package", "com.example"]
                     cwd = sc.path("ws/proj")
                     if discover == "-c" and have_file:
-                        args += ["-c", sc.path("ws/typeshare.toml")]
+                        args += ["-c", sc.path(cfg_path)]
                     r = run_cli(args + extra + [sc.path("ws/proj/src")], cwd=cwd)
                     file7 = [""] * 7
                     if file_present:
